@@ -4,8 +4,8 @@ cd "$(dirname "$0")/.."
 tier=${1:-quick}
 for id in $(python3 -c "import json; print(' '.join(c['property_id'] for c in json.load(open('MANIFEST.json'))['checks']))"); do
   s=$(date +%s)
-  out=$(./check $id --tier $tier 2>/dev/null | tail -3)
-  rc=$?
+  out=$(./check $id --tier $tier 2>/dev/null); rc=$?
+  out=$(echo "$out" | tail -3)
   echo "$id rc=$rc $(( $(date +%s) - s ))s :: $(echo "$out" | tail -1 | cut -c1-200)"
 done
 python3-vt - <<'PY'
